@@ -25,11 +25,60 @@ def run(ctx):
             ctx.sample({"kernel": im.lines, "isa": im.isa, "arch": im.arch, "edges": sorted("%s>%s" % k for k in im.edges())})
         if len(ctx.violations) > 10:
             break
-    ctx.cov["evaluations"] = ctx.counts.get("kernels", 0)
+    # ---- roles oracle: curated real instructions with architecturally known roles (harness/roles.py);
+    # the reference RAW relation uses nothing of OSACA (flag dependencies are per-flag in OSACA: not part of it)
+    from harness import roles, corpus
+    from osaca.semantics import MachineModel
+
+    nr = (300 if ctx.tier == "quick" else 4000) * (3 if ctx.broken else 1)
+    mms = {}
+    for t in range(nr):
+        isa = "x86" if t % 2 == 0 else "aarch64"
+        arch = ctx.rng.choice(corpus.archs_of(isa, ctx.tier == "quick"))
+        lines, rl = roles.gen(ctx.rng, isa, ctx.rng.randint(2, 8), npool=ctx.rng.choice([2, 3, 4]))
+        if arch not in mms:
+            mms[arch] = MachineModel(arch=arch)
+        try:
+            im = dgcheck.Impl(isa, arch, lines, False, mms[arch])
+        except Exception as e:  # noqa
+            ctx.violation("analysis of a vocabulary kernel raised %s: %s" % (type(e).__name__, e),
+                          {"isa": isa, "arch": arch, "kernel": lines, "exception": type(e).__name__})
+            continue
+        ctx.count("role_kernels")
+        dgcheck.compare_dg(ctx, im)
+        ref = roles.reference_raw(rl)
+        k = im.kernel
+
+        def st(i):
+            so = k[i].semantic_operands
+            return any(type(o).__name__ == "MemoryOperand" for o in so["destination"] + so["src_dst"])
+
+        def ld(i):
+            so = k[i].semantic_operands
+            return any(type(o).__name__ == "MemoryOperand" for o in so["source"] + so["src_dst"])
+
+        impl = {(int(s) - 1, int(d) - 1) for (s, d) in im.edges() if not s.endswith("L")}
+        impl = {(i, j) for (i, j) in impl if (i, j) in ref or not (st(i) and ld(j))}
+        ctx.count("role_edges", len(ref))
+        if ref:
+            distinct.add(repr((isa, lines)))
+        if impl != ref:
+            miss, extra = sorted(ref - impl), sorted(impl - ref)
+            if miss:
+                what = "instruction %d (`%s`) reads a register that instruction %d (`%s`) writes, but there is no dependency edge" % (
+                    miss[0][1] + 1, lines[miss[0][1]], miss[0][0] + 1, lines[miss[0][0]])
+            else:
+                what = "dependency edge %d -> %d (`%s` -> `%s`) although no register written by the first is read by the second (or it is overwritten in between)" % (
+                    extra[0][0] + 1, extra[0][1] + 1, lines[extra[0][0]], lines[extra[0][1]])
+            ctx.violation(what, dict(im.info(), missing=miss, extra=extra))
+        if len(ctx.violations) > 10:
+            break
+    ctx.cov["evaluations"] = ctx.counts.get("kernels", 0) + ctx.counts.get("role_kernels", 0)
     ctx.cov["distinct_nontrivial"] = len(distinct)
     ctx.cov["traces_validated_against_impl"] = ctx.counts.get("dg_compared", 0)
     ctx.cov["rule"] = "distinct (isa, kernel text, flag option) with at least one dependency edge; shipped kernels + generated ones"
-    ctx.log("%d kernels, %d RAW edges checked" % (ctx.counts.get("kernels", 0), ctx.counts.get("raw_edges", 0)))
+    ctx.log("%d kernels, %d RAW edges checked; %d vocabulary kernels, %d reference edges" % (
+        ctx.counts.get("kernels", 0), ctx.counts.get("raw_edges", 0), ctx.counts.get("role_kernels", 0), ctx.counts.get("role_edges", 0)))
     return ctx.finish(trusted=dgcheck.TRUSTED)
 
 
